@@ -35,6 +35,22 @@ CHECKS = {
              "is exercised by the harness, its counter has no theorem",
         technique="Lean 4 inductive invariant over an acceptor of hook/API event traces + deterministic simulation of the real runtime",
         design="§5 C01"),
+    "C02": dict(
+        text="Lean 4 theorems about the acceptor model of semaphore::signal / wait_interruptible / try_resume / try_subtract (any number of "
+             "threads and semaphores, both resume modes): by induction over every accepted trace, tokens taken by successful subtractions + "
+             "count = initial + signalled; a wait returns 0 exactly when its own last subtraction succeeded and a failed wait has taken "
+             "nothing and is out of the queue; the count changes only by signal (+n) and by a subtraction with n <= count; a resume pass hands "
+             "out no more than the count it started with and only to queued waiters with their registered demand; a quiescence point is "
+             "accepted only if no parked waiter's demand is covered by the count (head waiter in order, any waiter out of order). Tied to the "
+             "code by generated programs run on the real runtime on a virtual clock with every count change, pass, wake-up and return "
+             "validated and the real count compared at every quiescence point; an independent token-ledger / parked-waiter oracle supplies "
+             "failing programs",
+        note="trusted: Lean kernel + 3 standard axioms; single vCPU (signal() from plain OS threads and destroy-immediately-after-wait need "
+             "the multi-vCPU harness and are not exercised yet: that clause is not claimed); no-lost-wake-up is a guard of the acceptor at "
+             "quiescence points (a theorem about accepted traces), its truth for the code is what the trace validation establishes; uint64 "
+             "overflow of the count excluded",
+        technique="Lean 4 inductive invariant over an acceptor of hook/API event traces + deterministic simulation of the real runtime",
+        design="§5 C02"),
     "C04": dict(
         text="Lean 4 theorems about an acceptor model of prepare_usleep / resume_threads / prelocked_thread_interrupt / thread_interrupt / "
              "thread_yield / set_error_number (one event per hook point or API return, any number of threads): in every reachable state a "
